@@ -1,10 +1,14 @@
-# run plan + floors for C19, packet-level half (loaded by checkcfg.py; helpers e1/e2 are in scope)
+# run plan + floors for C19: packet-level half (E1, src/bin/c19.rs) + daemon-side half (E2, daemon/c19b.rs = BMP, daemon/c19m.rs = MRT)
+# (loaded by checkcfg.py; helpers e1/e2 are in scope)
 CFG = dict(
     level="exploration",
     rule="case = one monitoring event pushed through BmpCodec / MrtCodec / encode_table_dump and read back by "
          "independent RFC 7854/8671/9069 and RFC 6396/8050 structural readers; non-trivial = the record embeds at least "
          "one BGP PDU (OPEN/UPDATE/NOTIFICATION) or RIB entry that was parsed back with the repository's own parser and "
-         "compared with the monitored content; distinct by FNV-64 of the emitted bytes (wall-clock MRT timestamp excluded)",
+         "compared with the monitored content; distinct by FNV-64 of the emitted bytes (wall-clock MRT timestamp excluded).  "
+         "Daemon half: case = one BMP message / MRT record produced by the daemon's own converters, serve loops and dump_table from a "
+         "populated TableManager or from real BGP sessions (read from a station socket / dump file), same non-triviality rule, "
+         "distinct by FNV-64 of the embedded PDU / RIB entry bytes",
     monitors=["BMP common header: version 3, length == bytes of the message (stream of messages delimits exactly)",
               "BMP per-peer header: type, V flag == address family encoded, IPv4 zero-padded, L/O flags, RD, AS, BGP-ID, timestamp",
               "PeerUp: local address / ports, exactly two well-framed OPENs (+TLVs) that parse back to the sent / received OPEN",
@@ -16,7 +20,19 @@ CFG = dict(
               "TABLE_DUMP_V2: peer count == peers written, type bits match address/AS sizes, entry count == entries written, "
               "peer index < peer count and pointing at the right peer, attribute lengths consistent, prefix fits the subtype AFI, "
               "attributes / next hop of every entry parse back (RFC 6396 4.3.4 abbreviated MP_REACH read independently)",
-              "no panic in the codecs; bytes already queued in the output buffer untouched"],
+              "no panic in the codecs; bytes already queued in the output buffer untouched",
+              "daemon BMP (c19b conv): adj_rib_in/out_to_bmp_update, loc_rib_to_bmp, loc_rib_peer_up, session_down_to_bmp through a "
+              "session-long BmpCodec: per-peer header (type, V, L/O, AS, BGP ID, timestamp) + exactly one PDU + content == the change; "
+              "apply_snapshot + flush_peer_snapshot: flushed routes == the RIB's Adj-RIB-In of the peer (pre / post), add-path setting == the "
+              "session's, exactly one End-of-RIB per family with routes, after the routes",
+              "daemon BMP (c19b e2e): the real daemon (event::main) + scripted BGP speakers + TCP listeners as BMP stations (every AddBmp "
+              "policy): stream framing; PeerUp == the OPENs / addresses / ports that were really on the wire; PeerDown reason + NOTIFICATION "
+              "== how the session really ended; RouteMonitoring parsed with the add-path setting the PeerUp's OPENs state and folded per "
+              "(peer, view) == what the speakers announced (pre, post); Loc-RIB view made of announced routes; initial dump ends with End-of-RIB",
+              "daemon MRT (c19m): MrtDumper::serve file == one BGP4MP record per Adj-RIB-In change (header AFI / addresses / AS vs the session, "
+              "subtype vs AS width / add-path, one PDU, content == what was inserted); dump_table file: PEER_INDEX_TABLE peers == distinct "
+              "sources of the RIB, RIB records == TableManager::collect_paths (each prefix once, entry count, peer index in range and pointing "
+              "at the path's source, attributes + next hop parse back), sequence numbers increasing per subtype"],
     assumptions=["an event is judged only if a plain BGP session codec of the repository (PeerCodec::encode_to -> parse_message, "
                  "extended-message size, RFC 8950 for IPv4+IPv6-next-hop) round-trips its content; otherwise it is counted "
                  "unjudged:bgp-codec-unstable (C04's domain), e.g. IPv4 next hops of labeled/MUP/RTC/LS families that the BGP "
@@ -27,7 +43,13 @@ CFG = dict(
                  "BMP Stats / Termination / RouteMirroring are never emitted by the daemon: only their common header is judged",
                  "BGP4MP timestamp is the encoder's wall clock: read, not judged; BGP4MP_ET / state-change / RIB *_ADDPATH / "
                  "RIB_GENERIC records cannot be produced by the encoder and are therefore not exercised",
-                 "sequence numbers / peer-index resolution are inputs at this level (daemon-side dump_table is the E2 half)"],
+                 "sequence numbers / peer-index resolution are inputs at the packet level (daemon-side dump_table is the E2 half)",
+                 "daemon half: Global / PeerSession cannot be constructed from daemon/src/bmp.rs, so serve() is reached by running the whole "
+                 "daemon (event::main) over loopback; the Adj-RIB-In ground truth there is what the scripted speakers announced (no import "
+                 "policy configured); attributes an eBGP receiver discards (LOCAL_PREF, RR attributes) are not sent by eBGP speakers",
+                 "daemon half, not judged (counted unjudged:*): Adj-RIB-Out content (C09's), timestamps, a second PeerUp for a peer that is "
+                 "already up, RouteMonitoring for a peer without PeerUp (peer went down during the station's snapshot phase), TABLE_DUMP_V2 "
+                 "sequence numbers restarting at the IPv6 part, path ids of add-path peers in RIB_IPVx_UNICAST"],
     floor=dict(evaluations=7000, nontrivial=5000,
                counters={"in:bmp-route-events": 2400, "in:bmp-nlri-exceed-4096-frame": 200,
                          "in:bmp-nlri-exceed-65535-frame": 15, "in:bmp-attrs-exceed-4096-frame": 30,
@@ -40,12 +62,38 @@ CFG = dict(
                          "rm:kind/Eor": 350, "rm:family/ipv6": 500, "rm:family/evpn": 40, "rm:nexthop/v6+ll": 100,
                          "mrt:peer-v6": 400,
                          "td:peer-index-tables": 100, "td:rib-ipv4-unicast": 500, "td:rib-ipv6-unicast": 300,
-                         "td:rib-multi-entry": 500, "td:rib-nonzero-peer-index": 700, "td:peers-written": 10000}),
+                         "td:rib-multi-entry": 500, "td:rib-nonzero-peer-index": 700, "td:peers-written": 10000,
+                         # daemon half, BMP converters over a real TableManager (c19b conv)
+                         "conv-pre:reach": 500, "conv-pre:withdraw": 140, "conv-pre:addpath": 190, "conv-pre:peer-v6": 280,
+                         "conv-pre:ipv4-prefix-v6-nexthop": 60, "conv-pre:attrs-exceed-4096": 10, "conv-pre:family/evpn": 70,
+                         "conv-pre:family/ipv4-vpn": 70, "conv-post:reach": 500, "conv-locrib:reach": 500, "conv-adjout:reach": 40,
+                         "conv-many:multi-nlri": 5, "conv:snapshot-flush": 90, "conv:snapshot-eor": 290, "conv-snap-pre:reach": 360,
+                         "conv-snap-post:reach": 360, "conv-snap-pre:addpath": 100, "conv:apply-snapshot-folds": 45,
+                         "conv:peer-down/remote-notification": 12, "conv:peer-down/local-notification": 12,
+                         "conv:locrib-peer-up/2-byte-as": 5,
+                         # daemon half, real daemon + speakers + stations (c19b e2e)
+                         "e2e:histories": 6, "e2e:sessions": 12, "e2e:stations": 18, "e2e:peer-up/from-global": 18, "e2e:peer-up/v6": 4,
+                         "e2e:peer-up/loc-rib": 3, "e2e:peer-down/reason-1": 3, "e2e:peer-down/reason-3": 3, "e2e:peer-down/reason-4": 3,
+                         "e2e:rm/pre": 5000, "e2e:rm/post": 4000, "e2e:rm/loc-rib": 2500, "e2e:rm/out-pre": 2000, "e2e:rm/peer-v6": 2500,
+                         "e2e:rm/pdu-exceeds-4096": 120, "e2e:rib-view-compared/pre": 18, "e2e:rib-view-compared/post": 16,
+                         "e2e:rib-view-compared/loc-rib": 4, "e2e:rib-view-compared/add-path-session": 15, "e2e:routes-compared": 10000,
+                         "e2e:snapshot-with-eor/pre": 2, "e2e:snapshot-with-eor/post": 1, "e2e:station-connected-racing": 8,
+                         "e2e:session-with-add-path": 5, "e2e:session-v6-peer": 2,
+                         # daemon half, MRT (c19m)
+                         "mrtd:serve-records": 3000, "mrtd:direct-records": 3000, "mrtd:bgp4mp-peer-v6": 1200, "mrtd:bgp4mp-addpath": 800,
+                         "mrtd:bgp4mp-ipv4-prefix-v6-nexthop": 300, "mrtd:bgp4mp-attrs-exceed-4096": 80, "mrtd:bgp4mp-withdraw": 600,
+                         "mrtd:bgp4mp-4-byte-peer-as": 1200, "mrtd:td-dumps": 40, "mrtd:td-peers-written": 200,
+                         "mrtd:td-peer-table-with-v6-peer": 30, "mrtd:td-rib-ipv4": 300, "mrtd:td-rib-ipv6": 200,
+                         "mrtd:td-rib-multi-entry": 300, "mrtd:td-rib-nonzero-peer-index": 450, "mrtd:td-rib-entries": 1100,
+                         "mrtd:td-ipv4-prefix-v6-nexthop": 140}),
     # the release shard gets other seeds than the debug shard (seed_offset) so the two explore different inputs
-    quick=[e1("all", "c19", "debug", 1, 40), dict(e1("all", "c19", "release", 1, 40), seed_offset=500)],
+    quick=[e1("all", "c19", "debug", 1, 40), dict(e1("all", "c19", "release", 1, 40), seed_offset=500),
+           e2("bmpd", "bmp::verif::c19b::run", 1, 40), e2("mrtd", "mrt::verif::c19m::run", 1, 30)],
     thorough=[e1("bmp", "c19", "release", 5, 200, part="bmp"),
               dict(e1("mrt", "c19", "release", 3, 200, part="mrt"), seed_offset=200),
               dict(e1("td", "c19", "release", 2, 200, part="td"), seed_offset=300),
               dict(e1("dbg", "c19", "debug", 4, 200, scale=0.25), seed_offset=100),
-              dict(e1("asan", "c19", "debug", 2, 200, flavor="asan", scale=0.1), seed_offset=400)],
+              dict(e1("asan", "c19", "debug", 2, 200, flavor="asan", scale=0.1), seed_offset=400),
+              dict(e2("bmpd", "bmp::verif::c19b::run", 4, 150), seed_offset=600),
+              dict(e2("mrtd", "mrt::verif::c19m::run", 2, 150), seed_offset=700)],
 )
